@@ -118,24 +118,25 @@ type mblk struct {
 	Ts   uint64 `json:"ts"`
 }
 type mercObs struct {
-	Honest bool   `json:"honest"`
-	Raw    []byte `json:"raw,omitempty"` // undecodable bytes
-	Ts     uint32 `json:"ts"`
-	PV     bool   `json:"prices_valid"`
-	Bm     []byte `json:"bm"`
-	Bid    []byte `json:"bid"`
-	Ask    []byte `json:"ask"`
-	MfV    bool   `json:"mf_valid"`
-	Mf     int64  `json:"mf"`
-	LV     bool   `json:"link_valid"`
-	Link   []byte `json:"link"`
-	NV     bool   `json:"native_valid"`
-	Native []byte `json:"native"`
-	SV     bool   `json:"status_valid"`
-	Status uint32 `json:"status"`
-	Blocks []mblk `json:"blocks,omitempty"`
-	CurV   bool   `json:"cur_valid,omitempty"`
-	Cur    mblk   `json:"cur"`
+	Honest  bool   `json:"honest"`
+	Raw     []byte `json:"raw,omitempty"` // undecodable bytes
+	Ts      uint32 `json:"ts"`
+	PV      bool   `json:"prices_valid"`
+	Bm      []byte `json:"bm"`
+	Bid     []byte `json:"bid"`
+	Ask     []byte `json:"ask"`
+	decoded bool   // set on values read back from bytes with proto.Unmarshal
+	MfV     bool   `json:"mf_valid"`
+	Mf      int64  `json:"mf"`
+	LV      bool   `json:"link_valid"`
+	Link    []byte `json:"link"`
+	NV      bool   `json:"native_valid"`
+	Native  []byte `json:"native"`
+	SV      bool   `json:"status_valid"`
+	Status  uint32 `json:"status"`
+	Blocks  []mblk `json:"blocks,omitempty"`
+	CurV    bool   `json:"cur_valid,omitempty"`
+	Cur     mblk   `json:"cur"`
 }
 type mercRound struct {
 	Mode string    `json:"codec_mode"` // ok | empty | long | err
@@ -177,12 +178,63 @@ func (o mercObs) bytes(ver int) []byte {
 	return b
 }
 
+func mercFromBytes(ver int, raw []byte) (mercObs, bool) {
+	var o mercObs
+	switch ver {
+	case 1:
+		var m mv1.MercuryObservationProto
+		if proto.Unmarshal(raw, &m) != nil {
+			return o, false
+		}
+		o = mercObs{Ts: m.Timestamp, PV: m.PricesValid, Bm: m.BenchmarkPrice, Bid: m.Bid, Ask: m.Ask, MfV: m.MaxFinalizedBlockNumberValid, Mf: m.MaxFinalizedBlockNumber,
+			CurV: m.CurrentBlockValid, Cur: mblk{m.CurrentBlockNum, m.CurrentBlockHash, m.CurrentBlockTimestamp}}
+		for _, b := range m.LatestBlocks {
+			if b == nil {
+				o.Blocks = append(o.Blocks, mblk{})
+			} else {
+				o.Blocks = append(o.Blocks, mblk{b.Num, b.Hash, b.Ts})
+			}
+		}
+	case 2:
+		var m mv2.MercuryObservationProto
+		if proto.Unmarshal(raw, &m) != nil {
+			return o, false
+		}
+		o = mercObs{Ts: m.Timestamp, PV: m.PricesValid, Bm: m.BenchmarkPrice, MfV: m.MaxFinalizedTimestampValid, Mf: m.MaxFinalizedTimestamp,
+			LV: m.LinkFeeValid, Link: m.LinkFee, NV: m.NativeFeeValid, Native: m.NativeFee}
+	case 3:
+		var m mv3.MercuryObservationProto
+		if proto.Unmarshal(raw, &m) != nil {
+			return o, false
+		}
+		o = mercObs{Ts: m.Timestamp, PV: m.PricesValid, Bm: m.BenchmarkPrice, Bid: m.Bid, Ask: m.Ask, MfV: m.MaxFinalizedTimestampValid, Mf: m.MaxFinalizedTimestamp,
+			LV: m.LinkFeeValid, Link: m.LinkFee, NV: m.NativeFeeValid, Native: m.NativeFee}
+	default:
+		var m mv4.MercuryObservationProto
+		if proto.Unmarshal(raw, &m) != nil {
+			return o, false
+		}
+		o = mercObs{Ts: m.Timestamp, PV: m.PricesValid, Bm: m.BenchmarkPrice, MfV: m.MaxFinalizedTimestampValid, Mf: m.MaxFinalizedTimestamp,
+			LV: m.LinkFeeValid, Link: m.LinkFee, NV: m.NativeFeeValid, Native: m.NativeFee, SV: m.MarketStatusValid, Status: m.MarketStatus}
+	}
+	return o, true
+}
+
 func (b mblk) coq() string {
 	return fmt.Sprintf("{| bnum := %s; bhash := %s; bts := %s |}", coqZi(b.Num), coqHex(b.Hash), coqZu(b.Ts))
 }
+
+// the observation as the plugin's proto.Unmarshal sees it: for hand-made bytes the message is read back with the
+// real library (None if it does not unmarshal)
 func (o mercObs) coq(ver int) string {
-	if o.Raw != nil {
-		return fmt.Sprintf("(None, %s)", coqBool(o.Honest))
+	if !o.decoded {
+		d, ok := mercFromBytes(ver, o.bytes(ver))
+		if !ok {
+			return fmt.Sprintf("(None, %s)", coqBool(o.Honest))
+		}
+		d.Honest = o.Honest
+		d.decoded = true
+		return d.coq(ver)
 	}
 	if ver == 1 {
 		var bs []string
@@ -263,10 +315,11 @@ func mercCase(in mercIn, k int, tags ...string) caseRec {
 	var outs []mercOut
 	for _, r := range in.Rounds {
 		aos := make([]types.AttributedObservation, len(r.Obs))
-		var obsTerms []string
+		var obsTerms, rawTerms []string
 		for i, o := range r.Obs {
 			aos[i] = types.AttributedObservation{Observation: o.bytes(in.Cfg.Ver)}
 			obsTerms = append(obsTerms, o.coq(in.Cfg.Ver))
+			rawTerms = append(rawTerms, coqHex(o.bytes(in.Cfg.Ver)))
 		}
 		usePrev := prev
 		switch r.Prev {
@@ -331,9 +384,9 @@ func mercCase(in mercIn, k int, tags ...string) caseRec {
 			}
 		}
 		if in.Cfg.Ver == 1 {
-			rounds = append(rounds, fmt.Sprintf("{| r1d_prev := %s; r1d_replen := %s; r1d_obs := %s; r1d_out := %s; r1d_stable := %s |}", prevTerm, replen, coqList(obsTerms), outTerm, coqBool(stable)))
+			rounds = append(rounds, fmt.Sprintf("{| r1d_prev := %s; r1d_replen := %s; r1d_obs := %s; r1d_raw := %s; r1d_out := %s; r1d_stable := %s |}", prevTerm, replen, coqList(obsTerms), coqList(rawTerms), outTerm, coqBool(stable)))
 		} else {
-			rounds = append(rounds, fmt.Sprintf("{| rd_prev := %s; rd_replen := %s; rd_obs := %s; rd_out := %s; rd_stable := %s |}", prevTerm, replen, coqList(obsTerms), outTerm, coqBool(stable)))
+			rounds = append(rounds, fmt.Sprintf("{| rd_prev := %s; rd_replen := %s; rd_obs := %s; rd_raw := %s; rd_out := %s; rd_stable := %s |}", prevTerm, replen, coqList(obsTerms), coqList(rawTerms), outTerm, coqBool(stable)))
 		}
 		if rep != nil && r.Mode == "" || (rep != nil && r.Mode == "ok") {
 			prev = rep
@@ -495,6 +548,13 @@ func genMercHistory(r *rand.Rand, ver int, rounds int) mercIn {
 				}
 				if r.Intn(12) == 0 {
 					o.Raw = []byte{0xff, 0xff, 0xff}
+					if r.Intn(2) == 0 { // damage to the real encoding: flips, truncation, duplicated spans, unknown-field groups
+						o.Raw = nil
+						o.Raw = flipBytes(r, o.bytes(ver))
+						if o.Raw == nil {
+							o.Raw = []byte{}
+						}
+					}
 				}
 			}
 			rd.Obs = append(rd.Obs, o)
